@@ -1057,6 +1057,11 @@ def glue_greenlet() -> None:
 
     @unwrap_stackitem.register(GreenletType)
     def unwrap_greenlet(glet: GreenletType) -> Any:
+        # (Asked first, for it is only when someone asks this that greenlet
+        # notices that the thread a greenlet belonged to has exited; until
+        # then such a greenlet looks active, or suspended with its old frames.)
+        if glet.dead:
+            return []
         inner_frame = glet.gr_frame
         outer_frame = None
         if inner_frame is None:
